@@ -26,14 +26,9 @@ from tfsa.report import Ctx, finish, UNDECIDED  # noqa: E402
 ALL = ["C%02d" % i for i in range(1, 21)]
 
 
-def analyse(prop, root):
-    """Run the rule module of `prop` over the tree at root; returns Ctx (never raises)."""
+def _analyse_once(prop, root, normalise):
     mod = importlib.import_module("rules." + prop.lower())
-    try:
-        ctx = Ctx(root, prop)
-    except AnalysisError as exc:
-        ctx = Ctx.__new__(Ctx)
-        raise
+    ctx = Ctx(root, prop, normalise=normalise)
     try:
         mod.run(ctx)
     except AnalysisError as exc:
@@ -43,6 +38,47 @@ def analyse(prop, root):
     except Exception as exc:  # analyser bug: never a verdict
         tb = traceback.format_exc().strip().splitlines()
         ctx.undecided(prop + ".engine", None, "analyser crashed: %r (%s)" % (exc, " | ".join(tb[-3:])))
+    return ctx, mod
+
+
+def _open_questions(ctx):
+    from tfsa.report import load_known, match_known
+    known = load_known()
+    viol = [o for o in ctx.obs if o.status == "VIOLATED" and not match_known(o, known)]
+    und = [o for o in ctx.obs if o.status == UNDECIDED] + [f for f in ctx.floors if f[2] < f[1]]
+    return viol, und
+
+
+def analyse(prop, root):
+    """Run the rule module of `prop` over the tree at root; returns Ctx (never raises).
+
+    When the tree as written leaves something undecided (and nothing is violated), the tree is read a second time with
+    small helpers dissolved into their callers (tfsa/inline.py - the inverse of "extract method"); that reading is adopted
+    when it decides everything or reports a violation."""
+    ctx, mod = _analyse_once(prop, root, False)
+    if os.environ.get("VERIF_NO_SECOND_READING"):
+        return ctx, mod
+    viol, und = _open_questions(ctx)
+    if viol or not und:
+        return ctx, mod
+    try:
+        ctx2, _ = _analyse_once(prop, root, True)
+    except AnalysisError:
+        return ctx, mod
+    if not ctx2.prog.dissolved:
+        return ctx, mod
+    viol2, und2 = _open_questions(ctx2)
+    if viol2 or not und2:
+        for o in viol2:
+            near = [x.split(":", 1)[1] for x in ctx2.prog.dissolved if str(o.site).startswith(x.split(":", 1)[0] + ":")] or ["helpers of other modules"]
+            o.detail += " [second reading, after inlining %s]" % ", ".join(near[:8])
+        ctx2.info["second_reading"] = {
+            "why": "the tree as written left %d obligation(s) undecided" % len(und),
+            "first_reading_undecided": [getattr(o, "detail", None) or str(o[0]) for o in und][:12],
+            "helpers_inlined": ctx2.prog.dissolved,
+        }
+        return ctx2, mod
+    ctx.info["second_reading"] = {"tried": True, "helpers_inlined": ctx2.prog.dissolved, "still_undecided": len(und2)}
     return ctx, mod
 
 
